@@ -11,6 +11,7 @@ import (
 	"fmt"
 	"os"
 	"reflect"
+	"strings"
 	"sync"
 
 	lucene "github.com/grindlemire/go-lucene"
@@ -54,19 +55,22 @@ func main() {
 	}
 	bad := 0
 	runs := 0
-	for _, q := range queries {
-		shared, err := lucene.Parse(q)
-		if err != nil {
-			fmt.Println("cannot parse", q, err)
-			os.Exit(2)
-		}
-		fresh, _ := lucene.Parse(q)
-		fs := ops(q, shared)
-		want := make([]string, len(fs))
-		for i, f := range fs {
-			want[i] = f()
-		}
+	for _, q0 := range queries {
 		for r := 0; r < reps; r++ {
+			// every repetition uses field names the process has never seen, and nothing is rendered
+			// before the concurrent phase: first uses overlap (lazily built state, caches)
+			q := q0
+			if r > 0 {
+				for _, f := range []string{"a:", "b:", "c:", "p:", "q:", "u:", "f:"} {
+					q = strings.ReplaceAll(q, f, fmt.Sprintf("%s%d:", f[:1], r))
+				}
+			}
+			shared, err := lucene.Parse(q)
+			if err != nil {
+				fmt.Println("cannot parse", q, err)
+				os.Exit(2)
+			}
+			fs := ops(q, shared)
 			var wg sync.WaitGroup
 			start := make(chan struct{})
 			got := make([]string, 8*len(fs))
@@ -83,6 +87,11 @@ func main() {
 			close(start)
 			wg.Wait()
 			runs += len(got)
+			// sequential reference afterwards
+			want := make([]string, len(fs))
+			for i, f := range fs {
+				want[i] = f()
+			}
 			for k, s := range got {
 				if s != want[k%len(fs)] {
 					bad++
@@ -91,10 +100,11 @@ func main() {
 					}
 				}
 			}
-		}
-		if !reflect.DeepEqual(shared, fresh) {
-			fmt.Printf("SHARED-EXPRESSION-MODIFIED %q\n", q)
-			bad++
+			fresh, _ := lucene.Parse(q)
+			if !reflect.DeepEqual(shared, fresh) {
+				fmt.Printf("SHARED-EXPRESSION-MODIFIED %q\n", q)
+				bad++
+			}
 		}
 	}
 	fmt.Printf("RACE-COMPLEMENT runs=%d differing=%d\n", runs, bad)
